@@ -331,7 +331,65 @@ def full_message_orders():
     return nfull, extra
 
 
+def bgpls_mix_cases(decs):
+    """UPDATEs that carry a BGP-LS MP_REACH (node NLRI of protocol A), a BGP-LS MP_UNREACH (protocol B) and a BGP-LS
+    attribute (29) whose decoding depends on the protocol: (A, B, attribute value)"""
+    ls = tlv_pools(decs)['linkstate_tlv']
+    from .. import seeds
+    extra = []
+    for s_ in seeds.unit_test_bytes():          # multi-TLV attribute values of the unit tests
+        b, n = s_, 0
+        while len(b) >= 4 and 4 + struct.unpack('!H', b[2:4])[0] <= len(b):
+            b = b[4 + struct.unpack('!H', b[2:4])[0]:]
+            n += 1
+        if not b and n >= 2 and all(ok_ == 'ok' for ok_ in [budget.run(100000, decs['linkstate_tlv(proto=2)'], s_)[0]]):
+            extra.append(s_)
+    out = []
+    for a in (1, 2, 3, 6):
+        for b in (1, 2, 3, 6):
+            for v in ls + extra[:6]:
+                out.append((a, b, v))
+    return out
+
+
+def task_bgpls_mix(args):
+    from yabgp.message.update import Update
+
+    def node(proto):
+        body = bytes([proto]) + b'\x00' * 7 + b'\x01' + struct.pack('!HH', 256, 8) + struct.pack('!HHI', 512, 4, 65000)
+        return struct.pack('!HH', 1, len(body)) + body
+    out = []
+    n = 0
+    classes = set()
+    for a, b, lsv in args:
+        attrs = [(0x40, 1, b'\x00'),
+                 (0x80, 14, struct.pack('!HBB', 16388, 71, 4) + b'\x0a\x00\x00\x01' + b'\x00' + node(a)),
+                 (0x80, 15, struct.pack('!HB', 16388, 71) + node(b)),
+                 (0x80, 29, lsv)]
+        base = None
+        for order in itertools.permutations(attrs):
+            blob = b''.join(upd.wrap_attr(f, c, v, len(v) > 255) for f, c, v in order)
+            body = b'\x00\x00' + struct.pack('!H', len(blob)) + blob
+            st, got, steps = budget.run(100000, Update.parse, None, body, True)
+            n += 1
+            codes = tuple(c for f, c, v in order)
+            if st != 'ok':
+                out.append(('C15|attribute-order|a BGP-LS UPDATE stops decoding in some attribute order', {'order': codes, 'hex': body.hex(), 'protocols': (a, b)}))
+                break
+            have = (codec.norm(got['attr']), got.get('sub_error'))
+            if base is None:
+                base = have
+            elif have != base:
+                out.append(('C15|attribute-order|decoded attributes of a BGP-LS UPDATE depend on their order (%s)'
+                            % (codec.first_diff(base[0], have[0]) or 'error code'), {'order': codes, 'hex': body.hex(), 'protocols': (a, b)}))
+                break
+        classes.add(('bgpls-mix', a == b, struct.unpack('!H', lsv[:2])[0]))
+    return n, out, classes
+
+
 def _dispatch(t):
+    if t[0] == 'bgpls-mix':
+        return task_bgpls_mix(t[1])
     return {'pairs': task_pairs, 'perms': task_perms, 'corpus': task_corpus_perms}[t[0]](t[1])
 
 
@@ -373,6 +431,9 @@ def run(tier, seed):
     cu = corpus_updates()
     for i in range(0, len(cu), 4):
         tasks.append(('corpus', cu[i:i + 4]))
+    mix = bgpls_mix_cases(decs)
+    for i in range(0, len(mix), 150):
+        tasks.append(('bgpls-mix', mix[i:i + 150]))
     res = explore.pmap(_dispatch, tasks, chunk=1)
     nfull, extra = full_message_orders()
     explore.close_pool()
@@ -391,10 +452,10 @@ def run(tier, seed):
         'rule': 'per list kind (%d kinds) a pool of well-formed element encodings covering every element width (reference encoder; for the '
                 'TLV kinds every registered type with its shortest and longest body that decodes alone); all ordered pairs (a, b), all '
                 'triples for pools <= 40 (thorough), a || unknown || b for the TLV kinds: D(a||b) must equal D(a) ++ D(b) (dict union for OPEN '
-                'capabilities); all orders of every <= %d-subset of a 13-attribute UPDATE plus rotations / reversal of the full one. '
+                'capabilities); all orders of every <= %d-subset of a 13-attribute UPDATE plus rotations / reversal of the full one; all 24 orders of BGP-LS UPDATEs with MP_REACH (protocol A) + MP_UNREACH (protocol B) + attribute 29 for A, B in {1,2,3,6} x every link-state TLV of the pool. '
                 'distinct_nontrivial = distinct (kind, element widths)' % (len(sizes), 5 if tier == 'thorough' else 4),
         'samples': [{'kind': k, 'a': report.pick(ep[k], seed, 1)[0].hex(), 'b': report.pick(ep[k], seed + 1, 1)[0].hex()} for k in report.pick(sorted(sizes), seed, 3)],
-        'pool_sizes': sizes, 'unit_test_updates_permuted': len(cu), 'exhaustive': True, 'violation_keys': summary,
+        'pool_sizes': sizes, 'unit_test_updates_permuted': len(cu), 'bgpls_mix_cases': len(mix), 'exhaustive': True, 'violation_keys': summary,
     }
     report.write_evidence(PROP, tier, seed, 'exploration', cov,
                           ['purely differential oracle: no reference decoder involved; element pools from the reference encoder (vf/ref) and, '
